@@ -86,9 +86,9 @@ PROPS = {
                 deviations=[("PopNoReset", "rel-small"), ("NoT3OnRetx", "rel-small")],
                 liveness=True, bind="C02"),
     "C06": dict(focus=["C06", "EXC"], gen=_cfg_c06, nrand=(220, 2500), nsim=(60, 600), sim="sim-pr",
-                design=(["pr-small"], ["pr-small", "pr-big", "pr-mix"]),
+                design=(["pr-tiny"], ["pr-small", "pr-big", "pr-mix"]),
                 witnesses=["W_NoAbandon", "W_NoRetransmission", "W_NotAllDelivered"],
-                deviations=[("AbandonSentOnly", "pr-big"), ("NoFwdResend", "pr-small"), ("FwdSeqBackward", "pr-small"),
+                deviations=[("NoFwdResend", "pr-tiny"), ("FwdSeqBackward", "pr-tiny"), ("AbandonSentOnly", "pr-big"),
                             ("PruneAllStreams", "pr-mix"), ("FlightLeakOnAbandon", "pr-big")],
                 bind="C06"),
     "C13": dict(focus=["C13", "EXC"], gen=_cfg_c13, nrand=(300, 3000), nsim=(0, 0), sim=None,
@@ -257,6 +257,69 @@ def _serial_stage(rep, thorough):
             "serial_calls_validated": len(calls), "serial_16bit_first_operand_exhaustive": bool(thorough)}
 
 
+# --------------------------------------------------------------------------- C13 design level: DcLifecycle.tla
+
+DCL_INV = ["EventsOnce", "IdParity", "NoCollision", "Faithful", "NoBad", "EndClosesAll", "CloseCompleteWhenQuiet"]
+DCL_WIT = ["W_NeverBothClosed", "W_NoIdReuse", "W_NoMessage"]
+DCL_DEVS = [("AckReopens", "StateForward"), ("ResetBeforeAck", "CloseCompleteWhenQuiet"),
+            ("CloseNoIdQueuesReset", "NoBad"), ("QueuedNotClosedAtEnd", "EndClosesAll"),
+            ("LossyReconfig", "CloseCompleteWhenQuiet")]
+
+
+def _dcl_cfg(maxobj, creates, sends, reuse, dev=(), inv=DCL_INV, forward=True, spec="Spec", props=()):
+    lines = ["SPECIFICATION " + spec, "CONSTANTS", " MaxObj = %d" % maxobj, " MaxApiCreate = %d" % creates,
+             " MaxSend = %d" % sends, " AllowReuse = %s" % ("TRUE" if reuse else "FALSE"),
+             " Dev = {%s}" % ", ".join('"%s"' % d for d in dev)]
+    lines += ["INVARIANT " + i for i in inv]
+    if forward:
+        lines.append("PROPERTY StateForward")
+    lines += ["PROPERTY " + x for x in props]
+    lines.append("CHECK_DEADLOCK FALSE")
+    return "\n".join(lines) + "\n"
+
+
+def _lifecycle_stage(thorough):
+    """Design-level check of the channel lifecycle model (C13): clauses hold when ids are not
+    reused and RE-CONFIG is not lost; each repaired defect (deviation) is found; the two
+    recorded findings K02 / K03 are reproduced as model-level counter-examples."""
+    out = {}
+    with T.Scratch() as sc:
+        size = (4, 2, 1) if thorough else (3, 2, 1)
+        res = T.tlc(sc, "DcLifecycle", _dcl_cfg(*size, reuse=False), workers=16, args=["-coverage", "1"], timeout=2400)
+        if res.violated or not res.complete:
+            raise T.MachineryError("DcLifecycle fails its own clauses: %s\n%s" % (res.violated, res.out[-1200:]))
+        out["lifecycle_states"], out["lifecycle_transitions"] = res.distinct, res.generated
+        cov = {k: v[1] for k, v in res.action_counts().items()}
+        out["lifecycle_action_coverage"] = cov
+        dead = [a for a in ("Create", "FlushTask", "Send", "Close", "AssocEnd", "Establish")
+                if not cov.get(a)]
+        if dead:
+            raise T.MachineryError("vacuity: lifecycle actions never taken: %s" % dead)
+        w = T.tlc(sc, "DcLifecycle", _dcl_cfg(4, 2, 1, reuse=True, inv=DCL_WIT, forward=False), workers=8,
+                  args=["-continue"], timeout=1500)
+        miss = [x for x in DCL_WIT if x not in w.violated]
+        if miss:
+            raise T.MachineryError("vacuity: lifecycle witnesses not reached: %s" % miss)
+        devs = {}
+        for d, clause in (DCL_DEVS if thorough else DCL_DEVS[:2]):
+            r = T.tlc(sc, "DcLifecycle", _dcl_cfg(4, 2, 1, reuse=False, dev=[d]), workers=8, timeout=1500)
+            devs[d] = r.violated[:1]
+            if clause not in r.violated:
+                raise T.MachineryError("sensitivity: lifecycle deviation %s not detected (%s)" % (d, r.violated))
+        out["lifecycle_deviations_detected"] = devs
+        k3 = T.tlc(sc, "DcLifecycle", _dcl_cfg(4, 2, 1, reuse=True), workers=8, timeout=1500)
+        out["K03_reproduced_in_model"] = "NoBad" in k3.violated
+        if thorough:
+            lv = T.tlc(sc, "DcLifecycle", _dcl_cfg(3, 1, 1, reuse=False, inv=[], forward=False, spec="FairSpec",
+                                                   props=["CloseCompletes"]), workers=8, timeout=2400)
+            if lv.violated or lv.error:
+                raise T.MachineryError("DcLifecycle fails CloseCompletes: %s\n%s" % (lv.violated, lv.out[-800:]))
+            out["lifecycle_liveness_CloseCompletes"] = bool(lv.complete)
+            out["lifecycle_states"] += lv.distinct
+            out["lifecycle_transitions"] += lv.generated
+    return out
+
+
 # --------------------------------------------------------------------------- main
 
 
@@ -274,8 +337,7 @@ def run(prop):
         with T.Scratch() as sc:
             # 1. design level
             for ci, cname in enumerate(p["design"][ti]):
-                res = M.run_tlc(sc, M.CONFIGS[cname], DESIGN_INV, coverage=(ci == 0),
-                                timeout=1500 if thorough else 300)
+                res = M.run_tlc(sc, M.CONFIGS[cname], DESIGN_INV, coverage=(ci == 0), timeout=2400)
                 if res.violated or not res.complete:
                     raise T.MachineryError("design model SctpAssoc/%s failed its own clauses: %s\n%s" % (
                         cname, res.violated, res.out[-1500:]))
@@ -289,21 +351,21 @@ def run(prop):
             wit = {}
             if p["design"][ti]:
                 cname = p["design"][ti][0]
+                res = M.run_tlc(sc, M.CONFIGS[cname], p["witnesses"], timeout=900, workers=8, keep_going=True)
                 for w in p["witnesses"]:
-                    res = M.run_tlc(sc, M.CONFIGS[cname], [w], timeout=300, workers=8)
                     wit[w] = w in res.violated
                     if not wit[w]:
-                        raise T.MachineryError("vacuity: witness %s not violated in %s" % (w, cname))
+                        raise T.MachineryError("vacuity: witness %s not violated in %s\n%s" % (w, cname, res.out[-600:]))
             devs = {}
             for dname, cname in (p["deviations"] if thorough else p["deviations"][:2]):
-                res = M.run_tlc(sc, M.CONFIGS[cname], DESIGN_INV, dev=[dname], timeout=600)
+                res = M.run_tlc(sc, M.CONFIGS[cname], DESIGN_INV, dev=[dname], timeout=1500)
                 devs[dname] = res.violated[:1] or None
                 if not res.violated:
                     raise T.MachineryError("sensitivity: deviation %s not detected in %s" % (dname, cname))
             live = None
             if p.get("liveness"):
                 res = M.run_tlc(sc, M.CONFIGS["rel-small"], [], spec="FairSpec", properties=["C02_Drains"],
-                                timeout=900 if thorough else 240, workers=8)
+                                timeout=1500, workers=8)
                 live = bool(res.complete and not res.violated)
                 if res.violated or res.error:
                     raise T.MachineryError("design model fails C02_Drains: %s\n%s" % (res.violated, res.out[-1200:]))
@@ -361,9 +423,12 @@ def run(prop):
                               {"ops": tr.get("ops"), "origin": tr.get("origin"), "meta": tr["meta"],
                                "focus": p["focus"], "has_ref": "ref" in tr})
         extra = _serial_stage(rep, thorough) if prop == "C17" else {}
+        if prop == "C13":
+            extra = _lifecycle_stage(thorough)
+            design_states, design_trans = extra["lifecycle_states"], extra["lifecycle_transitions"]
         rep.coverage = {
             "states": design_states or tstates, "transitions": design_trans or ttrans,
-            "exhaustive": bool(p["design"][ti]),
+            "exhaustive": bool(p["design"][ti]) or prop == "C13",
             "design_configs": p["design"][ti], "design_invariants": DESIGN_INV if p["design"][ti] else [],
             "witnesses_violated_as_required": wit, "deviations_detected": devs, "liveness_C02_Drains": live,
             "action_coverage": acts_cov,
@@ -376,7 +441,7 @@ def run(prop):
             "samples": [_sample(traces[0]), _sample(traces[-1])],
         }
         rep.coverage.update(extra)
-        if not p["design"][ti]:
+        if not p["design"][ti] and prop != "C13":
             rep.coverage["explanation"] = ("design-level model for this property: see the property's own "
                                            "specification module; states/transitions are those of the TLC trace validation")
         rep.assumptions = [
